@@ -87,6 +87,11 @@ _STRAT = None      # set by generate(): the k-th program of a family; worker kin
                    # every one of the library's Add/AddAll/Bind implementations (one per combination) is visited evenly
 
 
+def inspector(rng):
+    """a client that only reads: the introspection calls of the Worker interface, concurrently with whatever the others do"""
+    return [{'op': rng.choice(['Introspect', 'Introspect', 'WStatus', 'NumIdle', 'NumProcessing', 'Metrics', 'NumConc'])} for _ in range(rng.choice([2, 3, 5]))]
+
+
 def base_cfg(rng, wk=None, qkind=None, conc=None):
     qk0, wk0 = rng.choice(['fifo', 'fifo', 'prio']), rng.choice(WKS)      # (drawn in any case: keeps the random stream stable)
     if _STRAT is not None:
@@ -117,7 +122,7 @@ def fam_basic(rng, pid):
         ops = []
         for _ in range(rng.choice([1, 2, 3])):
             j = rng.choice(b.jobs)
-            ops.append({'op': rng.choice(['Wait', 'Result', 'Status', 'Wait']), 'job': j})
+            ops.append({'op': rng.choice(['Wait', 'Result', 'Status', 'Wait', 'Info']), 'job': j})
             if rng.random() < 0.5:
                 ops.append({'op': 'Status', 'job': j})
         b.client('w%d' % (i + 1), ops)
@@ -177,6 +182,8 @@ def fam_ctl(rng, pid):
     b.client('ctl', ops)
     if rng.random() < 0.3:
         b.client('x', [{'op': rng.choice(['Pause', 'PauseAndWait'])}, {'op': 'Resume'}, {'op': 'WUF'}])
+    if rng.random() < 0.4:
+        b.client('insp', inspector(rng))
     return b.prog(cfg)
 
 
@@ -264,7 +271,7 @@ def fam_handle(rng, pid):
     b.client('c1', ops)
     for i in range(rng.choice([1, 2, 3])):
         j = rng.choice(b.jobs)
-        ops = [{'op': rng.choice(['Wait', 'Result', 'Result', 'Status']), 'job': j} for _ in range(rng.choice([1, 2, 3]))]
+        ops = [{'op': rng.choice(['Wait', 'Result', 'Result', 'Status', 'Info']), 'job': j} for _ in range(rng.choice([1, 2, 3]))]
         if rng.random() < 0.15 and cfg['wk'] != 'plain':
             ops.insert(0, {'op': 'Drain', 'job': j})
         b.client('w%d' % (i + 1), ops)
@@ -298,6 +305,8 @@ def fam_pool(rng, pid):
     if rng.random() < 0.4:
         ops.append({'op': 'Stop'})
     b.client('ctl', ops)
+    if rng.random() < 0.4:
+        b.client('insp', inspector(rng))
     return b.prog(cfg)
 
 
@@ -542,7 +551,10 @@ def fam_life(rng, pid):
     n = rng.choice([2, 3, 4, 5, 6, 8])
     seq = [rng.choice(LIFE_OPS) for _ in range(n)]
     ctx = rng.random() < 0.4
-    return life_prog(pid, seq, ctx, rng.choice([0, 0, 300]), rng.choice([1, 2]), rng, cancel_at=rng.randrange(n + 1) if ctx and rng.random() < 0.5 else None)
+    p = life_prog(pid, seq, ctx, rng.choice([0, 0, 300]), rng.choice([1, 2]), rng, cancel_at=rng.randrange(n + 1) if ctx and rng.random() < 0.5 else None)
+    if rng.random() < 0.3:
+        p['clients'].append({'name': 'insp', 'ops': inspector(rng)})
+    return p
 
 
 def life_exhaustive(maxlen, seed, prefix):
